@@ -25,7 +25,10 @@ Proof. repeat split; reflexivity. Qed.
 
 (** ---- when does the cleanup get stuck (see the environment fact in Model.v) *)
 Definition stuck (w : world) : option hang_stage :=
-  if collect_logging w && died_in_log_write w then Some HListener else None.
+  match ans w with
+  | ANever => Some HFuture
+  | _ => if collect_logging w && died_in_log_write w then Some HListener else None
+  end.
 
 (** ---- the trace of effects is the same whatever the future answers *)
 Definition expected_trace (clog : bool) : list ev :=
@@ -34,7 +37,7 @@ Definition expected_trace (clog : bool) : list ev :=
   ++ (if clog then [VListenerSentinel; VListenerAwaited] else []).
 
 Ltac cases_w w :=
-  destruct w as [clog a dw]; destruct clog; destruct a as [v | e]; try destruct e;
+  destruct w as [clog a dw]; destruct clog; destruct a as [v | e | ]; try destruct e;
   destruct dw.
 
 Lemma run_trace_exact : forall w,
@@ -43,6 +46,7 @@ Lemma run_trace_exact : forall w,
   | None => expected_trace (collect_logging w)
   | Some HShutdown => firstn 7 (expected_trace true)
   | Some HListener => firstn 9 (expected_trace true)
+  | Some HFuture => firstn (if collect_logging w then 7 else 5) (expected_trace (collect_logging w))
   end.
 Proof. intros w. cases_w w; reflexivity. Qed.
 
@@ -52,6 +56,7 @@ Definition expected_outcome (a : answer) : option Z * option exn :=
   | AValue v => (Some v, None)
   | ARaise EBrokenPool => (None, None)
   | ARaise e => (None, Some e)
+  | ANever => (None, None)
   end.
 
 Lemma run_task_exact : forall w,
@@ -92,13 +97,25 @@ Qed.
 Lemma yields_partial : forall w, stuck w = None -> exists x, await_handle w = Yields x.
 Proof. intros w H. rewrite await_exact, H. eexists. reflexivity. Qed.
 
-Lemma yields_without_logging : forall w, collect_logging w = false -> exists x, await_handle w = Yields x.
-Proof. intros w H. apply yields_partial. unfold stuck. rewrite H. reflexivity. Qed.
+Lemma yields_without_logging : forall w,
+  collect_logging w = false -> ans w <> ANever -> exists x, await_handle w = Yields x.
+Proof.
+  intros w H N. apply yields_partial. unfold stuck. rewrite H.
+  destruct (ans w); try reflexivity. contradiction.
+Qed.
 
 (** a worker that ends in the normal way (the future answers with a value or the worker's
     exception) and was not killed while logging: always yields, however much it logged *)
-Lemma yields_when_not_killed_logging : forall w, died_in_log_write w = false -> exists x, await_handle w = Yields x.
-Proof. intros w H. apply yields_partial. unfold stuck. rewrite H, andb_false_r. reflexivity. Qed.
+Lemma yields_when_not_killed_logging : forall w,
+  died_in_log_write w = false -> ans w <> ANever -> exists x, await_handle w = Yields x.
+Proof.
+  intros w H N. apply yields_partial. unfold stuck. rewrite H, andb_false_r.
+  destruct (ans w); try reflexivity. contradiction.
+Qed.
+
+Lemma yields_refuted_stopiteration :
+  exists w, collect_logging w = false /\ consistent (ExnOdd OStopIteration 1, None) (ans w) /\ await_handle w = Hangs HFuture.
+Proof. exists (mkWorld false ANever false). repeat split. left. reflexivity. Qed.
 
 Lemma yields_refuted_killed_while_logging :
   exists w, ans w = ARaise EBrokenPool /\ await_handle w = Hangs HListener.
@@ -112,6 +129,9 @@ Definition allowed (sc : scenario) : list (option Z * option exn) :=
   match sc with
   | (Ret v, None) => [(Some v, None)]
   | (Exn e, None) => [(None, Some (EWorker e))]
+  | (ExnOdd OStopIteration _, None) => [(None, None)]     (* vacuous: the handle never yields *)
+  | (ExnOdd OCfCancelled e, None) => [(None, Some (EAioCancelled e))]
+  | (ExnOdd OUnloadable _, None) => [(None, None)]
   | (Unpicklable, None) => [(None, Some EPickle)]
   | (SysExit n, None) => [(None, Some (ESysExit n))]
   | (HardExit _, None) => [(None, None)]
@@ -121,6 +141,7 @@ Definition allowed (sc : scenario) : list (option Z * option exn) :=
   | (b, Some (s, Racing)) =>
       [ match b with
         | Ret v => (Some v, None) | Exn e => (None, Some (EWorker e)) | Unpicklable => (None, Some EPickle)
+        | ExnOdd OCfCancelled e => (None, Some (EAioCancelled e)) | ExnOdd _ _ => (None, None)
         | SysExit n => (None, Some (ESysExit n)) | HardExit _ => (None, None) end;
         match s with SInt => (None, Some EKeyboardInt) | _ => (None, None) end;
         (None, None) ]
@@ -128,7 +149,7 @@ Definition allowed (sc : scenario) : list (option Z * option exn) :=
 
 Lemma allowed_is_map : forall sc, allowed sc = map expected_outcome (answers sc).
 Proof.
-  intros [b [[s i] | ]]; destruct b; try destruct s; try destruct i; reflexivity.
+  intros [b [[s i] | ]]; destruct b as [v | e | k e | | n | n]; try destruct k; try destruct s; try destruct i; reflexivity.
 Qed.
 
 Lemma outcome_shape : forall w sc x,
@@ -145,7 +166,7 @@ Lemma value_xor_exception : forall w x,
 Proof.
   intros w x Hx. rewrite await_exact in Hx. destruct (stuck w); [discriminate | ].
   inversion Hx; subst; clear Hx. simpl.
-  destruct (ans w) as [v | e]; simpl; auto. destruct e; simpl; auto.
+  destruct (ans w) as [v | e | ]; simpl; auto. destruct e; simpl; auto.
 Qed.
 
 Lemma cleanup_partial : forall w, stuck w = None ->
@@ -157,26 +178,24 @@ Proof.
 Qed.
 
 (** safety part, unconditional: whatever happens, the effects are a prefix of the full sequence *)
-Lemma stuck_logging : forall w h, stuck w = Some h -> collect_logging w = true /\ h = HListener.
-Proof.
-  intros w h. unfold stuck. destruct (collect_logging w); destruct (died_in_log_write w); simpl;
-    intros H; inversion H; auto.
-Qed.
-
 Lemma cleanup_prefix : forall w, exists rest, expected_trace (collect_logging w) = run_trace w ++ rest.
 Proof.
-  intros w. rewrite run_trace_exact. destruct (stuck w) as [h | ] eqn:E.
-  - destruct (stuck_logging w h E) as [-> ->]. eexists. simpl. reflexivity.
-  - exists []. rewrite app_nil_r. reflexivity.
+  intros w. cases_w w; eexists; reflexivity.
 Qed.
 
-(** even when stuck, the worker process has been joined; only the listener task is left *)
-Lemma process_always_joined : forall w, joined (run_trace w) = true.
-Proof. intros w. cases_w w; reflexivity. Qed.
+(** unless the future itself never answers, the worker process is joined even when the
+    listener is stuck *)
+Lemma process_always_joined : forall w, ans w <> ANever -> joined (run_trace w) = true.
+Proof. intros w N. cases_w w; try reflexivity; exfalso; apply N; reflexivity. Qed.
 
 Lemma cleanup_refuted :
-  exists w, joined (run_trace w) = true /\ helpers_left (run_trace w) = 1%nat.
-Proof. exists (mkWorld true (ARaise EBrokenPool) true). split; reflexivity. Qed.
+  (exists w, joined (run_trace w) = true /\ helpers_left (run_trace w) = 1%nat) /\
+  (exists w, collect_logging w = false /\ joined (run_trace w) = false /\ helpers_left (run_trace w) = 1%nat).
+Proof.
+  split.
+  - exists (mkWorld true (ARaise EBrokenPool) true). split; reflexivity.
+  - exists (mkWorld false ANever false). repeat split; reflexivity.
+Qed.
 
 Lemma times_ordered : forall w x, await_handle w = Yields x -> (created_at x < exited_at x)%nat.
 Proof.
@@ -201,11 +220,12 @@ Proof. repeat split; reflexivity. Qed.
 Lemma answer_eqb_eq : forall a b, answer_eqb a b = true <-> a = b.
 Proof.
   intros a b; split.
-  - destruct a as [x | e]; destruct b as [y | e']; try destruct e; try destruct e'; simpl;
+  - destruct a as [x | e | ]; destruct b as [y | e' | ]; try destruct e; try destruct e'; simpl;
       try discriminate; try reflexivity; intros H; apply Z.eqb_eq in H; subst; reflexivity.
-  - intros ->. destruct b as [y | f]; simpl.
+  - intros ->. destruct b as [y | f | ]; simpl.
     + apply Z.eqb_refl.
     + destruct f; simpl; try reflexivity; apply Z.eqb_refl.
+    + reflexivity.
 Qed.
 
 Lemma consistentb_spec : forall sc a, consistentb sc a = true <-> consistent sc a.
